@@ -475,7 +475,9 @@ func BuildZog(n *Node, r *Recorder) z.ZogSchema {
 			s.Catch(primValue(KStr, VCatch).(string))
 		}
 		for _, t := range n.Tests {
-			if t.Builtin {
+			if t.Builtin && t.Code == "not_contained" {
+				s.Not().Contains("2")
+			} else if t.Builtin {
 				s.Max(5)
 			} else {
 				fn, opt := mkTest(t, true)
